@@ -30,7 +30,7 @@ import os
 import re
 
 from engine import RuleSet
-from hir import strip, kids
+from hir import strip, kids, pat_variants as pat_variants_
 import qq
 
 RULES = RuleSet("C01", "§3 C01",
@@ -2299,3 +2299,59 @@ def r1_16(rep):
         rep.check(ok, "no-duplicate-derive@append_custom_derives", why if ok else
                   "%s: candidates are not compared with what was added earlier in the same call, so two sources naming the same trait "
                   "produce `#[derive(X, X)]`" % why, b.loc(c))
+
+
+# =====================================================================================================
+# R1.17
+# =====================================================================================================
+@RULES.rule("R1.17", "a bool enumerator is written `true` / `false` only where the enum's Rust type is still `bool`", floor=2)
+def r1_17(rep):
+    """`Enum::codegen` keeps the C underlying type of an enum only under `!translate_enum_integer_types && !variation.is_rust()`;
+    otherwise `enum class E : bool` becomes `u8`.  `EnumBuilder::with_variant` must print a boolean enumerator as `0` / `1` in every
+    one of those cases: `pub const E_A: E = false;` next to `pub type E = u8;` does not type-check (before the fix the option was not
+    looked at).  The conditions of the "keep the type" arm are read from `Enum::codegen`; the bool-literal arm of `with_variant` must
+    exclude each of them."""
+    prog = rep.prog
+    eb = rep.need(prog.impl_fn("codegen::CodeGenerator", "ir::enum_ty::Enum", "codegen"), "<Enum as CodeGenerator>::codegen")
+    # the arm that keeps the repr: a match arm with a guard, scrutinee derived from Enum::repr
+    keep = None
+    for m in eb.walk():
+        if m["k"] == "Match" and "Enum::repr" in eb.canon(m["scrut"], 6):
+            for a in m["arms"]:
+                if "guard" in a:
+                    keep = a["guard"]
+    rep.need(keep, "the guarded arm of `match self.repr()` that keeps the C type")
+    need = []
+    src = eb.canon(keep, 10)
+    if "translate_enum_integer_types" in src:
+        need.append("translate_enum_integer_types")
+    if "is_rust" in src:
+        need.append("is_rust")
+    rep.check(len(need) == 2, "keep-type-conditions", "the C type is kept under !translate_enum_integer_types && !is_rust (read: %s)" % need, eb.loc(keep))
+    wv = rep.need(next((x for p, x in prog.bodies.items() if p.endswith("EnumBuilder::with_variant")), None), "EnumBuilder::with_variant")
+    lit_sites = []
+    for m in wv.walk():
+        if m["k"] != "Match":
+            continue
+        for i, a in enumerate(m["arms"]):
+            if any(v.endswith("EnumVariantValue::Boolean") for v in pat_variants_(a["pat"])):
+                body = strip(a["body"])
+                is_int = "uint_expr" in wv.canon(body, 6) or "int_expr" in wv.canon(body, 6)
+                if not is_int:
+                    lit_sites.append((m, i, a))
+    rep.need(lit_sites, "the arm of with_variant that prints a bool enumerator as a literal")
+    for m, i, a in lit_sites:
+        # what excludes this arm: guards of the earlier Boolean arms
+        excl = " ".join(wv.canon(b_["guard"], 10) for j, b_ in enumerate(m["arms"]) if j < i and "guard" in b_ and
+                        any(v.endswith("EnumVariantValue::Boolean") for v in pat_variants_(b_["pat"])))
+        for x in wv.walk(m):
+            pass
+        flat = excl
+        for n_ in wv.nodes:
+            if n_["k"] == "Local" and n_.get("name") and ("local:" + n_["name"]) in excl and wv.local_init(n_["id"]) is not None:
+                flat += " " + wv.canon(wv.local_init(n_["id"]), 6)
+        for w in need:
+            ok = w in flat
+            rep.check(ok, "bool-literal-excluded-when:%s" % w, "an earlier arm takes the boolean when `%s` holds" % w if ok else
+                      "a boolean enumerator is still printed as `true` / `false` when `%s` holds, although the enum's type is an integer then "
+                      "(E0308)" % w, wv.loc(a["body"]))
